@@ -37,18 +37,19 @@ TScalarWrite(ev) ==
     LET exp == AssignSel(mem, ev.in.buf, <<ScalarOff(ev.in.shape, ev.in.idx)>>, ev.in.aop, [k |-> "sc", v |-> ev.in.v], Cx(ev))[ev.in.buf]
     IN /\ IF ev.out.blk = exp THEN Good ELSE Bad(ev)
        /\ Resync(ev)
+\* the selection of an index view: the logged flat offsets; for the per-axis forms they must be the outer product of the
+\* per-axis index lists (SelectSemantics for index views)
+IdxSelOf(ev) == ev.in.sel
+IdxFormOK(ev) == ev.in.form = "flat" \/ ev.in.sel = IdxSel(ev.in.shape, ev.in.axes)
 TIndexWrite(ev) ==
-    LET sel == IdxSel(ev.in.shape, ev.in.axes)
+    LET sel == IdxSelOf(ev)
         exp == AssignSel(mem, ev.in.buf, sel, ev.in.aop, ev.in.rhs, Cx(ev))[ev.in.buf]
-    IN /\ DomainOK(ev, DupFree(sel))
+    IN /\ DomainOK(ev, DupFree(sel) /\ IdxFormOK(ev))
        /\ IF ev.out.blk = exp THEN Good ELSE Bad(ev)
        /\ Resync(ev)
 \* mask: rhs element at the same flat position as the destination element
 TMaskWrite(ev) ==
-    LET sel == MaskSel(ev.in.mask)
-        full == EvalRhs(mem, ev.in.rhs, Prod(ev.in.shape), Cx(ev))
-        src == [q \in 1..Len(sel) |-> full[sel[q] + 1]]
-        exp == Write(mem[ev.in.buf], sel, ev.in.aop, src, Cx(ev))
+    LET exp == MaskAssign(mem, ev.in.buf, ev.in.mask, ev.in.aop, ev.in.rhs, Prod(ev.in.shape), Cx(ev))[ev.in.buf]
     IN /\ IF ev.out.blk = exp THEN Good ELSE Bad(ev)
        /\ Resync(ev)
 
@@ -64,8 +65,21 @@ TScalarRead(ev) ==
     /\ IF ev.out.vals = <<Cell(mem[ev.in.buf], ScalarOff(ev.in.shape, ev.in.idx))>> THEN Good ELSE Bad(ev)
     /\ UNCHANGED mem
 TIndexRead(ev) ==
-    /\ IF ev.out.vals = ReadExp(ev, IdxSel(ev.in.shape, ev.in.axes)) /\ ev.out.blk = mem[ev.in.buf] THEN Good ELSE Bad(ev)
+    /\ DomainOK(ev, IdxFormOK(ev))
+    /\ IF ev.out.vals = Read(mem[ev.in.buf], IdxSelOf(ev)) /\ ev.out.blk = mem[ev.in.buf] THEN Good ELSE Bad(ev)
     /\ UNCHANGED mem
+
+\* layout conversions: the two functions are P and P^-1 in one of the two assignments, and compose to the identity
+TLayout(ev) ==
+    LET a == ev.in.vals  sh == ev.in.shape
+        ok == /\ \/ (ev.out.cm = FromCM(sh, a) /\ ev.out.rm = ToCM(sh, a))
+                 \/ (ev.out.cm = ToCM(sh, a) /\ ev.out.rm = FromCM(sh, a))
+              /\ ev.out.cmrm = a /\ ev.out.rmcm = a
+    IN (IF ok THEN Good ELSE Bad(ev)) /\ UNCHANGED mem
+\* constructors store the given values in row-major order; with the ColumnMajor flag the buffer is column-major data
+TCtor(ev) ==
+    LET exp == IF ev.in.kind \in {"ptr_col", "arr_col", "vec_col"} THEN FromCM(ev.in.shape, ev.in.vals) ELSE ev.in.vals
+    IN (IF ev.out.vals = exp THEN Good ELSE Bad(ev)) /\ UNCHANGED mem
 
 \* Snapshot: every buffer is logged; all of memory must be what the judge holds (Frame across buffers)
 TSnapshot(ev) == /\ IF \A h \in DOMAIN mem : ev.out.blks[h] = mem[h] THEN Good ELSE Bad(ev)
@@ -85,6 +99,8 @@ Next == /\ l <= Len(Tr)
                [] ev.e = "SliceRead" -> TSliceRead(ev)
                [] ev.e = "ScalarRead" -> TScalarRead(ev)
                [] ev.e = "IndexRead" -> TIndexRead(ev)
+               [] ev.e = "Layout" -> TLayout(ev)
+               [] ev.e = "Ctor" -> TCtor(ev)
                [] ev.e = "Snapshot" -> TSnapshot(ev)
         /\ l' = l + 1
 Spec == Init /\ [][Next]_<<l, mem, live>>
